@@ -240,8 +240,13 @@ func evsTerm(evs []Ev) string {
 
 // Step is an item or an application action (appact of Input.v).
 type Step struct {
-	It  *Item  `json:"it,omitempty"`
-	App string `json:"app,omitempty"` // ACursorQuery ACursorGiveUp AClipWait AClipLeave
+	It *Item `json:"it,omitempty"`
+	// in a plan: ACursorQuery AClipWait; in the observed steps: ACursorArm ACursorWrite
+	// ACursorGiveUp AClipWait AClipLeave
+	App string `json:"app,omitempty"`
+	// plan only, with ACursorQuery: the query's Write is held while the next Hold sequences
+	// (direct mode) / the Held bytes (loop mode, any Hold > 0) are handled
+	Hold int `json:"hold,omitempty"`
 }
 
 func stepsTerm(steps []Step) string {
